@@ -145,4 +145,17 @@ example : ∀ c rs, c = Qmc.C09.exB →
       simp only [if_true]
       exact ex_tags)
 
+/-- all matrix elements 1: flip symmetric, constant, positive -/
+def Hone : Ham :=
+  { nbonds := 4
+    vars := fun b => if b = 0 then [0, 1] else [b - 1]
+    const := fun b => decide (b ≠ 0)
+    w := fun _ _ _ => 1 }
+
+/-- the weight certificate on the same move -/
+example : KeepsWeight Hone Qmc.C09.exB.slots Qmc.C09.exA.slots :=
+  clusterMove_keepsWeight Hone (Qmc.C09.isClusterMove_sound (fr := fun _ => false) (by decide))
+    (fun _ _ _ _ _ _ => rfl) (fun _ _ _ _ _ _ _ _ _ => rfl)
+    (fun _ _ => by show (0 : Rat) < 1; decide +kernel)
+
 end Qmc.Refine
